@@ -52,8 +52,11 @@ SPEC = dict(
         dict(family="varsloop", n=(30, 300), mc=dict(max_calls=9, after_end=0, host_writes=True, max_host_sets=1),
              invariants=["ReadsSeeHostWrites"], properties=[]),
     ],
-    cs=[dict(family="vars", n=(120, 2500), paths=(3, 5), calls=14, hostsets=True,
-             label="YarnTrace: longer assignment histories with host writes (recording storer)"),
+    cs=[dict(family="vars", n=(120, 2500), paths=(3, 5), calls=14, hostsets=True, layouts=True,
+             label="YarnTrace: longer assignment histories with host writes (recording storer), declare with and without `as <type>`"),
+        # expressions whose variable reads sit under unary operators, evaluated again after the variables changed
+        dict(family="expr", n=(50, 500), paths=(3, 5), calls=40, hostsets=True,
+             label="YarnTrace: assignments of rich expressions reached again after the variables changed"),
         dict(family="varsloop", n=(60, 600), paths=(3, 5), calls=30, hostsets=True,
              label="YarnTrace: lines and assignments reached again after host writes"),
         # variables that did not exist at the restored node entry do not exist after RestoreAt (unknown again, no type)
